@@ -215,7 +215,15 @@ func init() {
 				if cfg == "arm64" {
 					c.ruleAsmVsGenericMethod(cfg, res.box)
 				}
+				if cfg != "purego" {
+					// every other function that is defined differently in this configuration and in the portable one
+					if rp := c.limbInvariant("purego"); rp != nil && len(rp.problems) == 0 {
+						c.ruleBuildVariants(cfg, "purego", res.box)
+					}
+				}
 				if a := c.Eff(cfg); a != nil {
+					// configuration-specific code keeps no state of its own
+					c.addAll(keep(a.RGlobal(), func(o report.Obligation) bool { return strings.HasPrefix(o.Key, "R-GLOBAL/field.") }))
 					for f, s := range a.P.Asm {
 						c.Set.Add(report.Obligation{Rule: "ASM-EFFECTS", Key: "ASM-EFFECTS/" + load.ShortName(f), Config: cfg, OK: len(s.Undecided) == 0,
 							Detail: fmt.Sprintf("%d memory events, all through unmodified pointer arguments; writes only to %s", len(s.Events), f.Params[0].Name())})
